@@ -679,7 +679,10 @@ def _run_check(ctx, mod, replay):
             ok = True
         if ok and extra_judge is not None and extra_judge(c) is False:
             ok = False
-        if (not ok and c.spec == "nopanic" and getattr(mod, "MEMORY_EXCLUSION_IN_UNCONSTRAINED", True)
+        memex = getattr(mod, "MEMORY_EXCLUSION_IN_UNCONSTRAINED", True)
+        if callable(memex):
+            memex = memex(c)
+        if (not ok and c.spec == "nopanic" and memex
                 and ((c.impl == "PANIC" and (c.extra or {}).get("panic", "").strip().startswith("capacity overflow")) or c.impl == "ABORT(alloc-failed)")):
             # C08's statement excludes "requests for more memory than the machine has".  Where the oracle
             # computes the request it says so itself (verdict `any`); in a program it leaves unconstrained
